@@ -2,6 +2,8 @@ package props
 
 import (
 	"fmt"
+	"github.com/cosmos/cosmos-sdk/crypto/keys/secp256k1"
+	"strconv"
 	"time"
 
 	"cosmossdk.io/math"
@@ -27,6 +29,11 @@ type ValKey struct {
 func (v ValKey) ConsAddrHex() string { return fmt.Sprintf("%X", v.Pub.Address().Bytes()) }
 
 func NewConsKey(label string) (cryptotypes.PrivKey, cryptotypes.PubKey) {
+	if n, err := strconv.Atoi(label); err == nil && n%5 == 3 {
+		// every fifth validator key is a secp256k1 key (the module accepts any registered key type)
+		priv := secp256k1.GenPrivKeyFromSecret([]byte("verif/cons/" + label))
+		return priv, priv.PubKey()
+	}
 	priv := ed25519.GenPrivKeyFromSecret([]byte("verif/cons/" + label))
 	return priv, priv.PubKey()
 }
